@@ -798,6 +798,9 @@ func c05Controls() []core.Mutant {
 		{Name: "emit returns the opcode position", File: "compiler/compiler.go", Old: "\tc.bytecode = append(c.bytecode, op)\n\tcurrent := len(c.bytecode)\n", New: "\tcurrent := len(c.bytecode)\n\tc.bytecode = append(c.bytecode, op)\n", Rule: "R5.3", Construct: "emit/returned position"},
 		{Name: "jump offset guard removed", File: "compiler/compiler.go", Old: "\toffset := len(c.bytecode) - 2 - placeholder\n\tif offset > math.MaxUint16 {\n\t\tpanic(\"exceeded jump offset limit\")\n\t}\n", New: "\toffset := len(c.bytecode) - 2 - placeholder\n", Rule: "R5.4", Construct: "patchJump"},
 		{Name: "constant pool guard after conversion is too lax", File: "compiler/compiler.go", Old: "if len(c.constants) > math.MaxUint16 {", New: "if len(c.constants) > math.MaxUint16+2 {", Rule: "R5.4", Construct: "makeConstant"},
+		{Name: "refactor: makeConstant with an early return and an appendConstant helper", File: "compiler/compiler.go", Old: "\thashable := true\n\tswitch reflect.TypeOf(i).Kind() {\n\tcase reflect.Slice, reflect.Map:\n\t\thashable = false\n\t}\n\n\tif hashable {\n\t\tif p, ok := c.index[i]; ok {\n\t\t\treturn encode(p)\n\t\t}\n\t}\n\n\tc.constants = append(c.constants, i)\n\tif len(c.constants) > math.MaxUint16 {\n\t\tpanic(\"exceeded constants max space limit\")\n\t}\n\n\tp := uint16(len(c.constants) - 1)\n\tif hashable {\n\t\tc.index[i] = p\n\t}\n\treturn encode(p)\n}\n", New: "\tswitch reflect.TypeOf(i).Kind() {\n\tcase reflect.Slice, reflect.Map:\n\t\treturn encode(c.appendConstant(i))\n\t}\n\tif p, ok := c.index[i]; ok {\n\t\treturn encode(p)\n\t}\n\tp := c.appendConstant(i)\n\tc.index[i] = p\n\treturn encode(p)\n}\n\nfunc (c *compiler) appendConstant(v interface{}) uint16 {\n\tc.constants = append(c.constants, v)\n\tif len(c.constants) > math.MaxUint16 {\n\t\tpanic(\"exceeded constants max space limit\")\n\t}\n\treturn uint16(len(c.constants) - 1)\n}\n", Silent: true},
+		{Name: "extracted appendConstant returns the pool length", File: "compiler/compiler.go", Old: "\thashable := true\n\tswitch reflect.TypeOf(i).Kind() {\n\tcase reflect.Slice, reflect.Map:\n\t\thashable = false\n\t}\n\n\tif hashable {\n\t\tif p, ok := c.index[i]; ok {\n\t\t\treturn encode(p)\n\t\t}\n\t}\n\n\tc.constants = append(c.constants, i)\n\tif len(c.constants) > math.MaxUint16 {\n\t\tpanic(\"exceeded constants max space limit\")\n\t}\n\n\tp := uint16(len(c.constants) - 1)\n\tif hashable {\n\t\tc.index[i] = p\n\t}\n\treturn encode(p)\n}\n", New: "\tswitch reflect.TypeOf(i).Kind() {\n\tcase reflect.Slice, reflect.Map:\n\t\treturn encode(c.appendConstant(i))\n\t}\n\tif p, ok := c.index[i]; ok {\n\t\treturn encode(p)\n\t}\n\tp := c.appendConstant(i)\n\tc.index[i] = p\n\treturn encode(p)\n}\n\nfunc (c *compiler) appendConstant(v interface{}) uint16 {\n\tc.constants = append(c.constants, v)\n\tif len(c.constants) > math.MaxUint16 {\n\t\tpanic(\"exceeded constants max space limit\")\n\t}\n\treturn uint16(len(c.constants))\n}\n", Rule: "R5.8", Construct: "returns the index"},
+		{Name: "restructured makeConstant stores a stale index", File: "compiler/compiler.go", Old: "\thashable := true\n\tswitch reflect.TypeOf(i).Kind() {\n\tcase reflect.Slice, reflect.Map:\n\t\thashable = false\n\t}\n\n\tif hashable {\n\t\tif p, ok := c.index[i]; ok {\n\t\t\treturn encode(p)\n\t\t}\n\t}\n\n\tc.constants = append(c.constants, i)\n\tif len(c.constants) > math.MaxUint16 {\n\t\tpanic(\"exceeded constants max space limit\")\n\t}\n\n\tp := uint16(len(c.constants) - 1)\n\tif hashable {\n\t\tc.index[i] = p\n\t}\n\treturn encode(p)\n}\n", New: "\tswitch reflect.TypeOf(i).Kind() {\n\tcase reflect.Slice, reflect.Map:\n\t\treturn encode(c.appendConstant(i))\n\t}\n\tif p, ok := c.index[i]; ok {\n\t\treturn encode(p)\n\t}\n\tp := c.appendConstant(i)\n\tc.index[i] = p + 1\n\treturn encode(p)\n}\n\nfunc (c *compiler) appendConstant(v interface{}) uint16 {\n\tc.constants = append(c.constants, v)\n\tif len(c.constants) > math.MaxUint16 {\n\t\tpanic(\"exceeded constants max space limit\")\n\t}\n\treturn uint16(len(c.constants) - 1)\n}\n", Rule: "R5.8", Construct: "index map"},
 		{Name: "makeConstant returns the pool length", File: "compiler/compiler.go", Old: "p := uint16(len(c.constants) - 1)", New: "p := uint16(len(c.constants))", Rule: "R5.8", Construct: "returns the index"},
 		{Name: "JumpBackward handler adds", File: "vm/vm.go", Old: "vm.ip -= int(offset)", New: "vm.ip += int(offset)", Rule: "", Construct: "OpJumpBackward"},
 		{Name: "peephole truncates the instruction stream", File: "compiler/compiler.go", Old: "\tcase \"!\", \"not\":\n\t\tc.emit(OpNot)\n", New: "\tcase \"!\", \"not\":\n\t\tif n := len(c.bytecode); n > 0 && c.bytecode[n-1] == OpNot {\n\t\t\tc.bytecode = c.bytecode[:n-1]\n\t\t} else {\n\t\t\tc.emit(OpNot)\n\t\t}\n", Rule: "", Construct: "UnaryNode"},
